@@ -14,4 +14,9 @@ CHECKS = {
         "note": "Assumes SystemRandom / secrets.choice / rng.choice uniform. Float length-from-entropy is enumerated against the exact integer minimum (not proved). Context-level 'salt' refusal is checked on the real code here and modelled under C10.",
         "design_ref": "DESIGN.md §5 C06",
     },
+    "C14": {
+        "text": "Theorems for an arbitrary token generator (collisions allowed): the examined counters are exactly those with p*c <= t+s+w, t+s-w < p*(c+1), c >= max(last,0); accepted = earliest matching counter and later than last; used = earliest match is last; invalid = none matches; malformed iff the token does not normalise; over every history with feedback the accepted counters strictly increase (induction), hence no code twice. Window arithmetic is regenerated from totp.py each run; the real TOTP.match is compared with the compiled model exhaustively over small periods/windows/skews/last counters/times with colliding codes, on random large values, and on histories.",
+        "note": "Assumes the application feeds back each accepted counter. Times are integers here (datetime normalisation is C13). Unicode digit tokens are treated as the code treats them (str.isdigit table reflected from the interpreter).",
+        "design_ref": "DESIGN.md §5 C14",
+    },
 }
